@@ -178,3 +178,9 @@ claim("C08", "who-may-call table + guard dominance of the auth hook and of check
       "AuthModule::on_call_* on the AUTH arm; AuthModule returns Ok only after check_permission on the resolved permission; check_permission "
       "returns Ok only for AllowAll or an Authorized verdict (Failed arms doomed, no catch-all); evaluator matches have no catch-all. The iff "
       "semantics of rule evaluation is not decided.")
+
+claim("C05", "validate-before-write must-pass-through (each validation individually necessary) + API classification + kernel rejection liveness",
+      "Decides the local obligations behind ledger well-formedness: every SystemService API that passes caller bytes to a kernel write/open "
+      "primitive is dominated by each of its payload validations; every SystemService function writing substates is classified (validated or "
+      "engine-constructed with a reason); object/KV-store creation is behind validate_new_object / schema validation with the entity type "
+      "derived from the blueprint; the kernel's ownership/reference rejections are live and doomed. The global database invariants themselves are not decided.")
